@@ -222,6 +222,12 @@ func c06Run(r *core.Run) {
 		deliveries = append(deliveries, deliveries[0])
 		r.Fault("delay")
 	}
+	switch t.Int(6, "c06.ambient") {
+	case 1:
+		s.NeighbourNoise(deliveries[0])
+	case 2:
+		s.WarmUpThenReconfigure(deliveries[0])
+	}
 	for di, enc := range deliveries {
 		if di == 1 && perturb == 3 {
 			r.Sim.Advance(time.Duration(1+t.Int(40, "c06.delay")) * time.Second)
